@@ -132,6 +132,46 @@ theorem GenC14_e2e_over_the_wire_items (ver : Nat × Nat) (op : Nat) (p : DynV) 
   obtain ⟨cv, d2, h4, h5⟩ := h3 hwr hsr her
   exact ⟨rv, d1, cv, d2, h1, h2, h4, h5⟩
 
+/-- **... and over any transport.**  The same exchange with the two byte strings delivered by transports that fragment them in
+    ANY way (guard `Stack.Inv`): the Server's Decoder - its bufio, the limit readers and bufios of the nested structures, the
+    chunked string reads - still hands handleBatch the Request, and the Client's Decoder still hands Send the Response, so that
+    Send returns the handler's outcome.  (Composed with C01_roundtrip_over_any_transport, i.e. with the C06 simulation.) -/
+theorem GenC14_e2e_over_any_transport (ver : Nat × Nat) (op : Nat) (p : DynV) (clock : Nat) (H : Nat → ItemIn → HRes)
+    (rb sb : Bytes) (srcIn srcOut : Io.Src) (hv1 : ver.1 < two32) (hv2 : ver.2 < two32) (hclock : clock < two64)
+    (hitem : WFv (.struct KmipGen.sd_RequestBatchItem) (.struct [.one (.enum op), .one (.bytes []), .dyn p, .one wireZExt]))
+    (hsq : (canonTop KmipGen.sd_Request (mkRequest wireZExt ver op p)).Small = true)
+    (heq : encodeSD KmipGen.sd_Request (mkRequest wireZExt ver op p) = .ok rb)
+    (hritem : WFv (.struct KmipGen.sd_ResponseBatchItem)
+      (respItem wireZExt { op := op, uid := [], payload := normDyn p } (H 0 { op := op, uid := [], payload := normDyn p })))
+    (hsr : (canonTop KmipGen.sd_Response (respVal wireZNonce wireZExt clock H (sendView ver op p))).Small = true)
+    (her : encodeSD KmipGen.sd_Response (respVal wireZNonce wireZExt clock H (sendView ver op p)) = .ok sb)
+    (hiIn : (Io.Stack.top srcIn).Inv) (hfIn : srcIn.flat = rb) (hiOut : (Io.Stack.top srcOut).Inv) (hfOut : srcOut.flat = sb) :
+    ∃ rv x1 cv x2, Stk.decodeSrc KmipGen.sd_Request srcIn = .ok (rv, rb.length, x1) ∧
+      handleBatch wireZNonce wireZExt clock true H rv = some (respVal wireZNonce wireZExt clock H (sendView ver op p)) ∧
+      Stk.decodeSrc KmipGen.sd_Response srcOut = .ok (cv, sb.length, x2) ∧
+      Client.send true true op (Client.respView cv) =
+        (match H 0 { op := op, uid := [], payload := normDyn p } with
+         | .success q => .payload (normDyn q)
+         | .failed r m => .failure r m) := by
+  obtain ⟨hd1, hok1, ht1, hd2, hok2, ht2⟩ := wire_schemas_ok
+  obtain ⟨rv, d1, cv, d2, h1, h2, h3, h4⟩ := GenC14_e2e_over_the_wire_items ver op p clock H rb sb srcIn.fin srcOut.fin hv1 hv2 hclock
+    hitem hsq heq hritem hsr her
+  have hwq := wf_mkRequest ver op p hv1 hv2 hitem
+  have hwr : WFv (.struct KmipGen.sd_Response) (respVal wireZNonce wireZExt clock H (sendView ver op p)) :=
+    wf_respVal clock H (sendView ver op p) (wf_sendView_version ver hv1 hv2) hclock (by simp [sendView, two32]) (by simp [sendView, two32])
+      (by simp [sendView]) ⟨hritem, trivial⟩
+  obtain ⟨x1, e1, _, _⟩ := C01_roundtrip_over_any_transport KmipGen.sd_Request _ rb [] srcIn hd1 hok1 ht1 hwq hsq heq hiIn (by simpa using hfIn)
+  obtain ⟨x2, e2, _, _⟩ := C01_roundtrip_over_any_transport KmipGen.sd_Response _ sb [] srcOut hd2 hok2 ht2 hwr hsr her hiOut (by simpa using hfOut)
+  -- the flat decodes of the same bytes return the same values (Decode is a function): identify rv and cv
+  obtain ⟨d1', hr1⟩ := C01_roundtrip KmipGen.sd_Request _ rb srcIn.fin hd1 hok1 ht1 hwq hsq heq
+  obtain ⟨d2', hr2⟩ := C01_roundtrip KmipGen.sd_Response _ sb srcOut.fin hd2 hok2 ht2 hwr hsr her
+  rw [hr1] at h1
+  rw [hr2] at h3
+  simp only [Outcome.ok.injEq, Prod.mk.injEq] at h1 h3
+  obtain ⟨rfl, _, _⟩ := h1
+  obtain ⟨rfl, _, _⟩ := h3
+  exact ⟨_, x1, _, x2, e1, h2, e2, h4⟩
+
 /-! ### non-vacuity of the hypotheses -/
 def exActPayloadV : Val := .struct [.one (.text [97])]
 def exActPayload : DynV := .val false (.struct KmipGen.sd_ActivateRequest) exActPayloadV
